@@ -29,8 +29,8 @@ ZERO = ("zero",)
 END = ("end",)
 
 
-def _src_derived(body, op):
-    return termination.derives_from(body, op, lambda r: SRC_FIELD in r.fields)
+def _src_derived(body, op, params=()):
+    return termination.derives_from(body, op, lambda r: SRC_FIELD in r.fields or (r.kind == "param" and r.what in params and not r.fields))
 
 
 def _bare(op):
@@ -41,9 +41,10 @@ def _bare(op):
 
 
 class Flow:
-    def __init__(self, body, out_local):
+    def __init__(self, body, out_local, src_params=()):
         self.body = body
         self.out = out_local
+        self.src_params = tuple(src_params)
         self.loops = termination.natural_loops(body)
         self.lost = {}  # block -> explanation, where the frontier could not be kept at a join
         self.copies = []
@@ -69,7 +70,7 @@ class Flow:
                 continue  # decided once, outside the walk over the other sequence: not a per-entry comparison
             succs = body.succ(sb)
             doms = [s for s in succs if s == b or body.dominates(s, b)]
-            if len(doms) >= 1 and len(doms) < len(set(succs)) and _src_derived(body, t["d"]):
+            if len(doms) >= 1 and len(doms) < len(set(succs)) and _src_derived(body, t["d"], self.src_params):
                 return True
         return False
 
@@ -143,11 +144,11 @@ class Flow:
             return
         v = fresh
         short = c.rsplit("::", 1)[-1]
-        if short == "index" and len(args) == 2 and _src_derived(body, args[0]):
+        if short == "index" and len(args) == 2 and _src_derived(body, args[0], self.src_params):
             rng = self.val_of(st, args[1])
             if rng[0] == "range":
                 v = ("slice", rng)
-        elif short in ("is_empty",) and args and _src_derived(body, args[0]):
+        elif short in ("is_empty",) and args and _src_derived(body, args[0], self.src_params):
             v = ("src_is_empty",)
         elif short in ("extend_from_slice", "extend", "append") and len(args) == 2 and self.val_of(st, args[0]) == ("out",):
             sl = self.val_of(st, args[1])
@@ -247,27 +248,13 @@ class Flow:
         return {"v": v, "f": f}
 
 
-def run(facts, rep):
-    n = 0
-    body = facts.bodies.get(FN)
-    if body is None:
-        raise CheckBroken("anchor missing: %s" % FN)
-    short = body.id.split("::", 1)[1]
-    cons = [(b, t) for b, t in body.calls() if t.get("callee") == CONSUMER and not body.is_cleanup(b)]
-    n += 1
-    if not rep.check(bool(cons), "S2", short, "hands-leaves-to-reconstruct_pages", "continue_leaves_fetch no longer hands the merged leaves to page_walker::reconstruct_pages", site=body.span, detail="reconstruct_pages(.., final_leaf_data_collection)"):
-        return n
-    # the result vector: the argument of the consumer that is a local Vec of the function
+def _vec_locals_feeding(body, ops):
+    """local Vecs of the function that the operands are (moved from)"""
     outs = set()
-    for (b, t) in cons:
-        for a in t["args"]:
-            l = _bare(a)
-            if l is not None and body.local_ty(l).startswith("alloc::vec::Vec<"):
-                outs.add(l)
-            for r in trace(body, a):
-                if r.kind == "local" and body.local_ty(r.what).startswith("alloc::vec::Vec<"):
-                    outs.add(r.what)
-    # resolve temps `_x = move _out`
+    for a in ops:
+        l = _bare(a)
+        if l is not None and body.local_ty(l).startswith("alloc::vec::Vec<"):
+            outs.add(l)
     cand = set()
     for l in outs:
         cur, seen = l, set()
@@ -279,41 +266,89 @@ def run(facts, rep):
                 for s in body.stmts(bb):
                     if s["k"] == "assign" and not s["pl"].get("p") and s["pl"]["l"] == cur and s["rv"]["k"] == "use":
                         m = _bare(s["rv"]["op"])
-                        if m is not None:
+                        if m is not None and body.local_ty(m).startswith("alloc::vec::Vec<"):
                             nxt = m
             if nxt is None:
                 break
             cur = nxt
-    cursor_merge = False
-    verdicts = []
-    for out_l in sorted(cand):
-        # depth of the loop that walks the other sequence = loop depth of the copies; taken as the smallest loop depth at which
-        # the source is sliced into the result
-        fl = Flow(body, out_l)
+    return cand
+
+
+def _analyse(body, outs, src_params, checkpoints):
+    """[(out local, Flow)] for the result vectors into which slices of the stored leaves are copied"""
+    res = []
+    for out_l in sorted(outs):
+        fl = Flow(body, out_l, src_params)
         depths = [fl.loop_depth(bb) for bb in range(body.n) if not body.is_cleanup(bb) for s_ in body.stmts(bb) if s_["k"] == "assign" and s_["rv"]["k"] == "bin" and s_["rv"]["op"] in ("AddWithOverflow", "Add") and s_["rv"]["b"].get("int") == "1" and body.op_ty(s_["rv"]["a"]) == "usize"]
         depths = [d for d in depths if d >= 1]
         if not fl.run(base_depth=min(depths) if depths else 0):
-            raise CheckBroken("S2: the frontier analysis of %s did not converge" % FN)
-        if not fl.copies:
-            continue
-        cursor_merge = True
-        verdicts.append((out_l, fl))
-    if not cursor_merge:
-        rep.notes.append("S2: continue_leaves_fetch does not merge with an index cursor (no `out.extend_from_slice(&src[a..b])`): merge completeness not decided")
+            raise CheckBroken("S2: the frontier analysis of %s did not converge" % body.id)
+        if fl.copies:
+            res.append((out_l, fl))
+    return res
+
+
+def run(facts, rep):
+    n = 0
+    body = facts.bodies.get(FN)
+    if body is None:
+        raise CheckBroken("anchor missing: %s" % FN)
+    short = body.id.split("::", 1)[1]
+    cons = [(b, t) for b, t in body.calls() if t.get("callee") == CONSUMER and not body.is_cleanup(b)]
+    n += 1
+    if not rep.check(bool(cons), "S2", short, "hands-leaves-to-reconstruct_pages", "continue_leaves_fetch no longer hands the merged leaves to page_walker::reconstruct_pages", site=body.span, detail="reconstruct_pages(.., final_leaf_data_collection)"):
         return n
+    # (1) the merge written in continue_leaves_fetch itself
+    outs = set()
+    for (_b, t) in cons:
+        outs |= _vec_locals_feeding(body, t["args"])
+    where = body
+    verdicts = _analyse(body, outs, (), [b for (b, _t) in cons])
+    checks = [(b, t.get("ln")) for (b, t) in cons]
+    if not verdicts:
+        # (2) ... or in a helper whose result is handed to reconstruct_pages: the helper is analysed with the parameter that
+        # receives the stored leaves as the source and its returned vector as the result
+        for (_b, t) in cons:
+            for a in t["args"]:
+                for r in trace(body, a):
+                    if r.kind != "call" or r.obj is None:
+                        continue
+                    hb = facts.bodies.get(str(r.what))
+                    if hb is None or hb.crate != "nomt" or hb.kind == "Closure" or not hb.local_ty(0).startswith("alloc::vec::Vec<"):
+                        continue
+                    src_params = tuple(i + 1 for i, ca in enumerate(r.obj.get("args", [])) if _src_derived(body, ca))
+                    if not src_params:
+                        continue
+                    rets = hb.return_blocks()
+                    houts = _vec_locals_feeding(hb, [{"k": "move", "pl": {"l": 0}}]) - {0}
+                    # `_0 = move _out` : find the locals moved into the return place
+                    for bb in range(hb.n):
+                        for s_ in hb.stmts(bb):
+                            if s_["k"] == "assign" and not s_["pl"].get("p") and s_["pl"]["l"] == 0 and s_["rv"]["k"] == "use":
+                                m = _bare(s_["rv"]["op"])
+                                if m is not None:
+                                    houts |= _vec_locals_feeding(hb, [{"k": "move", "pl": {"l": m}}])
+                    v = _analyse(hb, houts, src_params, rets)
+                    if v:
+                        verdicts, where, checks = v, hb, [(rb, hb.span) for rb in rets]
+                        short = hb.id.split("::", 1)[1]
+    if not verdicts:
+        rep.notes.append("S2: the stored leaves are not merged with an index cursor in continue_leaves_fetch or in the helper that builds its result (no `out.extend_from_slice(&src[a..b])`): merge completeness not decided")
+        return n
+    body = where
     for (out_l, fl) in verdicts:
         n += 1
         rep.ok("S2", short, "copies-stored-leaves", detail="%d slice copies of the stored leaves into the result: %s; supersede steps at bb%s; skip steps at bb%s" % (len(fl.copies), [(ln.rsplit(":", 1)[-1], k) for (_b, ln, k, _h) in fl.copies], sorted({b for (b, _l) in fl.supersedes}), sorted({b for (b, _l) in fl.skips})))
-        for (cb, ct) in cons:
+        for (cb, cln) in checks:
             st = fl.inn.get(cb)
             if st is None:
                 continue
             n += 1
             f = st["f"]
             if f == END:
-                rep.check(True, "S2", short, "every-stored-leaf-handled", "", site=ct.get("ln"), detail="on every path to reconstruct_pages the frontier of handled stored leaves is END")
+                rep.check(True, "S2", short, "every-stored-leaf-handled", "", site=cln, detail="on every path to reconstruct_pages the frontier of handled stored leaves is END")
                 continue
-            why = "the frontier of copied/superseded leaves is %r at the call" % (f,)
+            why = "the frontier of copied/superseded leaves is %r where the result is handed on" % (f,)
             if f[0] == "lost":
                 jb = f[1]
                 ins = fl.lost.get(jb, [])
@@ -338,5 +373,5 @@ def run(facts, rep):
                     st_p = fl.out_states.get(p) or {"v": {}}
                     (fine if any(st_p["v"].get(l) == pf for l in cursors) else behind).append("bb%d (%s)" % (p, line_of(p)))
                 why = "the paths joining at bb%d disagree on how many stored leaves have been handled: arriving from %s the cursor has moved past stored leaves that were not copied into the result (arriving from %s everything below the cursor has been handled)" % (jb, ", ".join(behind) or "?", ", ".join(fine) or "-")
-            rep.check(False, "S2", short, "every-stored-leaf-handled", "merging the stored leaves of an elided subtree with the overlay chain can drop stored leaves: %s - the reconstructed pages would not match what a commit of the chain produces" % why, site=ct.get("ln"))
+            rep.check(False, "S2", short, "every-stored-leaf-handled", "merging the stored leaves of an elided subtree with the overlay chain can drop stored leaves: %s - the reconstructed pages would not match what a commit of the chain produces" % why, site=cln)
     return n
